@@ -398,6 +398,52 @@ fn ragged_rows(max_len: usize) -> Vec<Vec<i64>> {
     }
     rows
 }
+/// Does *every* ordering of the cases 0..c run into a result that a still-alive candidate lacks?  Computed
+/// with the most lenient filtering (stop as soon as one candidate is left); an implementation that looks at
+/// more cases only meets more missing results.  When this holds, no reading of lexicase selection can
+/// return a member without ignoring a missing result.
+pub fn missing_result_certain(rows: &[Vec<i64>], c: usize) -> bool {
+    if rows.is_empty() || c == 0 {
+        return false;
+    }
+    let mut order: Vec<usize> = (0..c).collect();
+    loop {
+        let mut cand: Vec<usize> = (0..rows.len()).collect();
+        let mut hit = false;
+        for &case in &order {
+            if cand.len() <= 1 {
+                break;
+            }
+            if cand.iter().any(|i| rows[*i].len() <= case) {
+                hit = true;
+                break;
+            }
+            let best = cand.iter().map(|i| rows[*i][case]).max().unwrap();
+            cand.retain(|i| rows[*i][case] == best);
+        }
+        if !hit {
+            return false;
+        }
+        // next permutation
+        let mut i = order.len();
+        loop {
+            if i < 2 {
+                return true;
+            }
+            if order[i - 2] < order[i - 1] {
+                break;
+            }
+            i -= 1;
+        }
+        let mut j = order.len() - 1;
+        while order[j] <= order[i - 2] {
+            j -= 1;
+        }
+        order.swap(i - 2, j);
+        order[i - 1..].reverse();
+    }
+}
+
 fn ragged_scenario(rows: &[Vec<i64>], c: usize, erased_form: bool) -> (u64, u64, Option<(String, String)>, usize) {
     let pop = mk_pop_matrix(rows);
     let n = rows.len();
@@ -405,6 +451,7 @@ fn ragged_scenario(rows: &[Vec<i64>], c: usize, erased_form: bool) -> (u64, u64,
     let alpha = Alphabet::Rep { r: 479_001_600, k: 24 };
     let mut outcomes: BTreeSet<SelObs> = BTreeSet::new();
     let mut bad: Option<(String, String)> = None;
+    let certain = missing_result_certain(rows, c);
     let lex = Lexicase::new(c);
     let boxed: Box<dyn DynSelector<Pop> + Send + Sync> = Box::new(Lexicase::new(c));
     let st = explore(
@@ -418,7 +465,7 @@ fn ragged_scenario(rows: &[Vec<i64>], c: usize, erased_form: bool) -> (u64, u64,
         },
         |_, _, o| {
             let ok = match &o {
-                SelObs::Idx(_) => n > 0,
+                SelObs::Idx(_) => n > 0 && !certain,
                 SelObs::Err(ErrKind::Empty) => n == 0,
                 SelObs::Err(ErrKind::MissingCase) => c > min_len,
                 _ => false,
@@ -432,7 +479,7 @@ fn ragged_scenario(rows: &[Vec<i64>], c: usize, erased_form: bool) -> (u64, u64,
                 };
                 bad = Some((
                     format!("select/{kind}/ragged-Lex"),
-                    format!("{}Lexicase({c}) on individuals with results {rows:?}: result {o:?}; admissible: a member{}", if erased_form { "dyn:" } else { "" }, if c > min_len { " or MissingTestCase" } else { "" }),
+                    format!("{}Lexicase({c}) on individuals with results {rows:?}: result {o:?}; admissible: {}{}", if erased_form { "dyn:" } else { "" }, if certain { "MissingTestCase only (every ordering of the cases meets a result that a remaining candidate lacks)" } else { "a member" }, if c > min_len && !certain { " or MissingTestCase" } else { "" }),
                 ));
             }
             outcomes.insert(o);
@@ -530,7 +577,7 @@ pub fn run(run: &mut Run) {
     ragged_lexicase(run);
     crate::bigpop::run_family(run, crate::bigpop::BigMode::Member);
     run.traces_validated = run.evaluations;
-    run.rule = "every selector configuration (Best, Worst, Random, Tournament(1..n+1), Lexicase(0..3 cases, 2 results available), lone Weighted, WeightedPair nestings of 2..4 real selectors, DynWeighted lists of 1..3; direct, behind &, through Select, and type-erased) x every population of size 0..n over 3 values x every word sequence of the mixed Grid(12)+Rep(12!,24) alphabet, and (n <= 3) of the alphabets that add the extreme words 0 and all-ones; plus Lexicase(0..3), direct and erased, on every ragged population (each individual with its own 0..3 results); plus large populations (big.population_sizes, 10 structured populations) for Best, Worst, Random, Lexicase(2) and tournaments of sizes {1,2,3,7,11,12,n/3,n/2,n-2,n-1,n,n+1} on all streams of big.streams: a member or the documented tournament-size error; non-trivial = scenarios with more than one distinct outcome".into();
+    run.rule = "every selector configuration (Best, Worst, Random, Tournament(1..n+1), Lexicase(0..3 cases, 2 results available), lone Weighted, WeightedPair nestings of 2..4 real selectors, DynWeighted lists of 1..3; direct, behind &, through Select, and type-erased) x every population of size 0..n over 3 values x every word sequence of the mixed Grid(12)+Rep(12!,24) alphabet, and (n <= 3) of the alphabets that add the extreme words 0 and all-ones; plus Lexicase(0..3), direct and erased, on every ragged population (each individual with its own 0..3 results); plus large populations (big.population_sizes, 10 structured populations) for Best, Worst, Random, Lexicase(2), Lexicase(3) with one individual a result short (all tied: MissingTestCase is certain) and tournaments of sizes {1,2,3,7,11,12,16,17,31..33,64,65,162..164,n/65,n/64,n/3,n/2,n-2,n-1,n,n+1} on all streams of big.streams: a member or the documented tournament-size error; non-trivial = scenarios with more than one distinct outcome".into();
     run.bound("max_population", json!(max_n));
     run.bound("configurations", json!(configs.len()));
     run.bound("populations", json!(pops.len()));
